@@ -149,6 +149,22 @@ pub proof fn lemma_trunc8(y: usize)
     assert(((y as u8) as usize) == y % 0x100usize) by (bit_vector);
 }
 
+pub proof fn lemma_low24(b0: u8, b1: u8, b2: u8, b3: u8)
+    ensures
+        forall|w: u32| w as int == ((b0 as int * 256 + b1 as int) * 256 + b2 as int) * 256 + b3 as int ==> (#[trigger] (w & 0xffffff)) as int == (b1 as int * 256 + b2 as int) * 256 + b3 as int,
+{
+    assert forall|w: u32| w as int == ((b0 as int * 256 + b1 as int) * 256 + b2 as int) * 256 + b3 as int implies (#[trigger] (w & 0xffffff)) as int == (b1 as int * 256 + b2 as int) * 256 + b3 as int by {
+        assert(w & 0xffffff == w % 0x1000000) by (bit_vector);
+    }
+}
+
+pub proof fn lemma_hi8(x: u32)
+    ensures
+        ((x & !0xffffffu32) != 0) == (x > 0xffffff),
+{
+    assert(((x & !0xffffffu32) != 0) == (x > 0xffffff)) by (bit_vector);
+}
+
 pub proof fn lemma_pad4(n: usize)
     requires
         n <= usize::MAX - 3,
